@@ -314,6 +314,61 @@ def case_handbuilt(g, rng, tier):
          "i": rng.choice(inner)}
     return {"sx": sx(c), "meta": {"kind": "handbuilt", "flip": mode, "seq": seq}}
 
+def bigdeg_tree(g, rng):
+    """a node with 8, 9, 16, 17, 18, 32, 33, 64 or 65 neighbours, as root or not, its children all tips or with one heavy
+    clade; returns (tree, degree, description)"""
+    d = rng.choice([8, 9, 16, 17, 18, 32, 33, 64, 65])
+    as_root = rng.random() < 0.4
+    heavy = rng.random() < 0.6
+    nchild = d if as_root else d - 1
+    cnt = [0]
+    def nm():
+        cnt[0] += 1
+        return "t%d" % (cnt[0] - 1)
+    def clade(k):
+        ns = [nm() for _ in range(k)]
+        return g.shape(ns, maxdeg=3)
+    kids_ = [nm() for _ in range(nchild - (1 if heavy else 0))]
+    if heavy:
+        kids_.insert(rng.randrange(len(kids_) + 1), clade(rng.randint(3, 7)))
+    if as_root:
+        shape = kids_
+    else:
+        others = [nm()] if rng.random() < 0.5 else [clade(rng.randint(2, 4))]
+        if rng.random() < 0.5:
+            others.append(nm())
+        shape = others[:]
+        shape.insert(rng.randrange(len(shape) + 1), kids_)
+        if len(shape) == 1:
+            shape.append(nm())
+    t = g.decorate(shape, lenmode="all", supmode="mixed", up_random=rng.random() < 0.5)
+    names = tricky_names(rng, cnt[0])
+    t = rename(t, {"t%d" % i: names[i] for i in range(cnt[0])})
+    return t, d, ("root" if as_root else "inner") + ("+heavy" if heavy else "+tips")
+
+def reroot_off_hub(t, rng, d):
+    """the same tree rooted on an inner node other than the big one (inside the heavy clade when there is one)"""
+    nodes, adj = to_graph(t)
+    cand = [i for i in sorted(adj) if 2 <= len(adj[i]) < d]
+    root = rng.choice(cand) if cand else 0
+    return from_graph(nodes, adj, root, rng)
+
+def case_bigdeg_index(g, rng, tier):
+    t, d, what = bigdeg_tree(g, rng)
+    if rng.random() < 0.5:
+        t = reroot_off_hub(t, rng, d)
+        what += "+rerooted"
+    return {"sx": sx({"kind": Sym("index"), "tree": T(t)}), "meta": {"kind": "index", "bigdeg": d, "shape": what}}
+
+def case_bigdeg_samebip(g, rng, tier):
+    t1, d, what = bigdeg_tree(g, rng)
+    while tier == "quick" and d > 33:          # all pairs of branches: keep the quick tier light
+        t1, d, what = bigdeg_tree(g, rng)
+    t2 = reroot_off_hub(t1, rng, d)
+    if rng.random() < 0.5:
+        t1, t2 = t2, t1
+    return {"sx": sx({"kind": Sym("samebip"), "t1": T(t1), "t2": T(t2)}), "meta": {"kind": "samebip", "how": "bigdeg", "bigdeg": d}}
+
 def case_indexseq(g, rng, tier):
     """the indexing step is one of the sequences the public API allows, with or without an earlier indexing"""
     n = rng.randint(3, 18)
@@ -322,9 +377,37 @@ def case_indexseq(g, rng, tier):
     t = rand_tree(g, rng, n, lenmode="all")
     nodes = list(preorder(t))
     inner = [i for i, x in enumerate(nodes) if len(x["slots"]) >= 2]
-    pre = rng.choice(["none", "none", "reinit", "reinit", "reroot", "hashes", "reinit_reroot"])
+    pre = rng.choice(["none", "none", "reinit", "reinit", "reroot", "hashes", "reinit_reroot",
+                      "insert_one", "insert_one", "insert_many", "graft_tip", "graft_tree", "removetips", "rename", "setname", "shuffle"])
     seq = rng.choice(["reinit", "three", "three", "three_hashes", "tipindex", "nothing"])
     c = {"kind": Sym("indexseq"), "tree": T(t), "pre": Sym(pre), "seq": Sym(seq), "i": rng.choice(inner)}
+    names = leaves(t)
+    def fresh(k):
+        # new names that sort before, between and after the existing ones
+        out = []
+        while len(out) < k:
+            base = rng.choice(names)
+            base = base if isinstance(base, bytes) else base.encode()
+            cand = rng.choice([b"", b"!", base, base[:1], b"~~", b"0"]) + rng.choice([b"n", b"!x", b"~z", b"A"]) + b"%d" % rng.randrange(100)
+            if cand not in [x if isinstance(x, bytes) else x.encode() for x in names] and cand not in out:
+                out.append(cand)
+        return out
+    if pre in ("insert_one", "insert_many", "rename", "setname"):
+        k = rng.randint(1, min(3, n))
+        c["names"] = rng.sample(names, k)
+        c["news"] = fresh(k)
+    elif pre == "graft_tip":
+        c["news"] = fresh(1)
+        c["j"] = rng.randrange(n_edges(t))
+    elif pre == "graft_tree":
+        gn = fresh(rng.randint(2, 4))
+        gt = g.tree(ntips=len(gn), maxdeg=3, lenmode="all", supmode="none", up_random=False)
+        c["names"] = [rng.choice(names)]
+        c["graft"] = T(rename(gt, {"t%d" % i: gn[i] for i in range(len(gn))}))
+    elif pre == "removetips":
+        c["names"] = rng.sample(names, rng.randint(1, max(1, n - 3)))
+    elif pre == "shuffle":
+        c["seed"] = rng.randrange(1, 2 ** 31)
     return {"sx": sx(c), "meta": {"kind": "indexseq", "pre": pre, "seq": seq}}
 
 def case_parmap(g, rng, tier):
@@ -470,7 +553,7 @@ def case_quartet(g, rng, tier, small=None):
 
 def gen(rng, tier):
     g = Gen(rng)
-    counts = {"quick":    {"index": 100, "edit": 100, "handbuilt": 40, "indexseq": 70, "samebip": 45, "edgeindex": 70, "hashmap": 60, "parmap": 12,
+    counts = {"quick":    {"index": 80, "edit": 85, "handbuilt": 35, "indexseq": 70, "samebip": 35, "edgeindex": 60, "hashmap": 50, "parmap": 10,
                            "qmap": 20, "quartet": 10},
               "thorough": {"index": 2500, "edit": 2500, "handbuilt": 800, "indexseq": 1500, "samebip": 900, "edgeindex": 1500, "hashmap": 1500,
                            "parmap": 150, "qmap": 300, "quartet": 150},
@@ -492,6 +575,12 @@ def gen(rng, tier):
                 c = {"kind": Sym("edit"), "tree": T(t), "op": Sym("removetips"), "seed": 1, "revert": False,
                      "names": [rm], "reinit": reinit}
                 out.append({"sx": sx(c), "meta": {"kind": "edit", "op": "removetips:witness", "reinit": reinit}})
+    # degree boundaries, as there are word-size boundaries: big nodes as root and not, re-rooted off them
+    nb = {"quick": 12, "thorough": 300, "search": 20}[tier]
+    for _ in range(nb):
+        out.append(case_bigdeg_index(g, rng, tier))
+    for _ in range(nb // 2):
+        out.append(case_bigdeg_samebip(g, rng, tier))
     for kind, n in counts.items():
         for _ in range(n):
             out.append(makers[kind](g, rng, tier))
